@@ -26,15 +26,16 @@ VARIABLES
   gstore,   \* Seq of [id, seen] from Save events
   owed,     \* peers whose block was seen in a pair the spec refuses and who have not been stopped since
   failH,    \* heights of the refused pairs seen at the current pool.height (see StepStopPeer)
+  wide,     \* [p, h] such that p has reported a range covering h at some point of the run
   hand,     \* [done, h, honestInPool] from the Handover event
   viol, drift
 
-vars == <<l, tT, honest, gp, blocks, gst, gstore, owed, failH, hand, viol, drift>>
+vars == <<l, tT, honest, gp, blocks, gst, gstore, owed, failH, wide, hand, viol, drift>>
 
 EmptyPool == [h |-> 1, req |-> << >>, peers |-> << >>, maxH |-> 0]
 Init ==
   /\ l = 1 /\ tT = 0 /\ honest = {} /\ gp = EmptyPool /\ blocks = << >>
-  /\ gst = [h |-> 0, lastID |-> NoBID] /\ gstore = << >> /\ owed = {} /\ failH = {}
+  /\ gst = [h |-> 0, lastID |-> NoBID] /\ gstore = << >> /\ owed = {} /\ failH = {} /\ wide = {}
   /\ hand = [done |-> FALSE, h |-> 0, honestInPool |-> FALSE]
   /\ viol = {} /\ drift = {}
 
@@ -61,7 +62,7 @@ PoolOfLog(lp, tbl) ==
       \* a requester still naming a peer that is no longer in pool.peers has been told to
       \* redo and is about to reset (bpRequester.redo -> requestRoutine -> reset)
       req |-> [h \in hs |->
-                 IF rq(h).peer = Nil \/ rq(h).peer \notin ps THEN ReqEmpty
+                 IF rq(h).peer = Nil \/ rq(h).peer \notin ps \/ rq(h).redo THEN ReqEmpty
                  ELSE [peer |-> rq(h).peer,
                        blk |-> IF rq(h).blk = "nil" THEN NilBlk
                                ELSE IF rq(h).blk \in DOMAIN tbl THEN tbl[rq(h).blk]
@@ -77,7 +78,10 @@ PickAll(pool, target, hs) ==
   IF hs = {} THEN pool
   ELSE LET h == CHOOSE x \in hs : TRUE
            p == IF h \in ReqHeights(target) THEN target.req[h].peer ELSE Nil
-       IN PickAll(IF p # Nil /\ CanPick(pool, h, p) THEN Pick(pool, h, p) ELSE pool, target, hs \ {h})
+           \* (the range is checked under the pool's lock, the peer id is stored by the requester
+           \* afterwards: the range may have been narrowed in between, see StepRequest)
+           can == p # Nil /\ pool.req[h].peer = Nil /\ p \in DOMAIN pool.peers
+       IN PickAll(IF can THEN Pick(pool, h, p) ELSE pool, target, hs \ {h})
 
 Infer(pool, target) ==
   LET a == PoolRemoveAll(pool, DOMAIN pool.peers \ DOMAIN target.peers)
@@ -126,18 +130,22 @@ StepReset(e) ==
   /\ tT' = e.T
   /\ honest' = {e.peers[i].p : i \in {j \in 1..Len(e.peers) : e.peers[j].honest}}
   /\ gp' = EmptyPool /\ blocks' = << >>
-  /\ gst' = [h |-> 0, lastID |-> NoBID] /\ gstore' = << >> /\ owed' = {} /\ failH' = {}
+  /\ gst' = [h |-> 0, lastID |-> NoBID] /\ gstore' = << >> /\ owed' = {} /\ failH' = {} /\ wide' = {}
   /\ hand' = [done |-> FALSE, h |-> 0, honestInPool |-> FALSE]
   /\ UNCHANGED <<viol, drift>>
 
 StepJoin(e) ==
   /\ Install(e, {Infer(gp, PoolOfLog(e.pool, blocks))}, blocks, gst, {}, {}, {e.p})
-  /\ UNCHANGED <<tT, honest, blocks, gst, gstore, hand>>
+  /\ UNCHANGED <<tT, honest, blocks, gst, gstore, hand, wide>>
 
 StepStatus(e) ==
   LET lp == PoolOfLog(e.pool, blocks)
       pre == PoolRemoveAll(gp, DOMAIN gp.peers \ (DOMAIN lp.peers \cup {e.p}))
-  IN /\ Install(e, {Infer(SetPeerRange(pre, e.p, e.base, e.height), lp)}, blocks, gst, {}, {}, {})
+      \* requesters may have picked the peer under its OLD range before this status arrived
+      early == PickAll(MakeUpTo(pre, Cardinality(ReqHeights(lp))), lp, ReqHeights(lp))
+  IN /\ Install(e, {Infer(SetPeerRange(pre, e.p, e.base, e.height), lp),
+                    Infer(SetPeerRange(early, e.p, e.base, e.height), lp)}, blocks, gst, {}, {}, {})
+     /\ wide' = wide \cup {[p |-> e.p, h |-> h] : h \in e.base..e.height}
      /\ UNCHANGED <<tT, honest, blocks, gst, gstore, hand>>
 
 StepRequest(e) ==
@@ -145,12 +153,15 @@ StepRequest(e) ==
       x  == Infer(gp, lp)
       \* (a requester may already have been reset again when its request reaches the peer: a redo
       \* queued for an earlier incarnation of the same peer id -- redoCh -- is honoured late)
-  IN /\ Install(e, {x}, blocks, gst,
+      \* pickIncrAvailablePeer checks the range under the pool's lock, the requester stores the
+      \* peer id after releasing it: a status that narrows the range can slip in between
+      forced == IF e.h \in ReqHeights(x) /\ x.req[e.h].peer = Nil THEN [x EXCEPT !.req[e.h].peer = e.p] ELSE x
+  IN /\ Install(e, {x, forced}, blocks, gst,
                 FailIf(e.p \in DOMAIN lp.peers
-                       /\ ~(e.h \in ReqHeights(x) /\ (x.req[e.h].peer = e.p
-                                                       \/ (x.req[e.h].peer = Nil /\ CanPick(x, e.h, e.p)))),
-                       D("Request to a peer the spec's requester did not pick")), {}, {})
-     /\ UNCHANGED <<tT, honest, blocks, gst, gstore, hand>>
+                       /\ ~(e.h \in ReqHeights(x) /\ x.req[e.h].peer \in {e.p, Nil}),
+                       D("Request to a peer the spec's requester did not pick"))
+                \cup FailIf([p |-> e.p, h |-> e.h] \notin wide, D("Request to a peer that never reported that height")), {}, {})
+     /\ UNCHANGED <<tT, honest, blocks, gst, gstore, hand, wide>>
 
 StepResponse(e) ==
   LET b   == e.blk
@@ -172,14 +183,14 @@ StepResponse(e) ==
      /\ InstallM(e, {Infer(r.pool, lp)}, tbl, gst,
                  FailIf(b # gen, D("block built by the harness is not the spec's block of that kind"))
                  \cup FailIf(e.vb # vbSpec, D("real ValidateBlock disagrees with the spec's")), {}, {}, r.pool)
-     /\ UNCHANGED <<tT, honest, gst, gstore, hand>>
+     /\ UNCHANGED <<tT, honest, gst, gstore, hand, wide>>
 
 StepPlain(e) ==   \* NoBlock, Timeout
   LET lp == PoolOfLog(e.pool, blocks)
       x  == Infer(gp, lp)
       y  == IF e.ev = "Timeout" /\ e.p \in DOMAIN x.peers THEN [x EXCEPT !.peers[e.p].to = TRUE] ELSE x
   IN /\ Install(e, {y}, blocks, gst, {}, {}, {})
-     /\ UNCHANGED <<tT, honest, blocks, gst, gstore, hand>>
+     /\ UNCHANGED <<tT, honest, blocks, gst, gstore, hand, wide>>
 
 StepStopPeer(e) ==
   LET lp == PoolOfLog(e.pool, blocks)
@@ -192,7 +203,7 @@ StepStopPeer(e) ==
   IN /\ Install(e, x, blocks, gst,
                 FailIf(e.why = "validation" /\ e.p \notin owed /\ ~race,
                        D("peer stopped for a validation error without a pair the spec refuses")), {}, {e.p})
-     /\ UNCHANGED <<tT, honest, blocks, gst, gstore, hand>>
+     /\ UNCHANGED <<tT, honest, blocks, gst, gstore, hand, wide>>
 
 StepSave(e) ==
   LET lp    == PoolOfLog(e.pool, blocks)
@@ -211,7 +222,7 @@ StepSave(e) ==
                 FailIf(b # CanonBlock(e.h), V("OnlyCanonical", cls))
                 \cup FailIf(~Covers(pows, BID(b), e.h, e.seen), V("CommitCovers", cls))
                 \cup FailIf(~valid, V("FullyValidated", cls)), {})
-     /\ UNCHANGED <<tT, honest, blocks, gst, hand>>
+     /\ UNCHANGED <<tT, honest, blocks, gst, hand, wide>>
 
 StepApply(e) ==
   LET lp == PoolOfLog(e.pool, blocks) IN
@@ -220,7 +231,7 @@ StepApply(e) ==
              FailIf(e.id # CanonId(e.h) \/ e.uid # CanonId(e.h), V("OnlyCanonical", "applied:" \o e.uid))
              \cup FailIf(~(e.h <= Len(gstore) /\ gstore[e.h].blk.id = e.id /\ gstore[e.h].blk.uid = e.uid) \/ e.h # gst.h + 1,
                          V("AppliedIsStored", "applied:" \o e.uid)), {})
-  /\ UNCHANGED <<tT, honest, blocks, gstore, hand>>
+  /\ UNCHANGED <<tT, honest, blocks, gstore, hand, wide>>
 
 \* reconstructLastCommit on the stored seen commit: panic iff the spec's VoteSetClean is false
 PanicSpec(e) == e.h > 0 /\ ~VoteSetClean(e.lastVals, e.seen)
@@ -228,23 +239,25 @@ PanicSpec(e) == e.h > 0 /\ ~VoteSetClean(e.lastVals, e.seen)
 StepHandover(e) ==
   LET lp == PoolOfLog(e.pool, blocks)
       x  == Infer(gp, lp)
-  IN /\ hand' = [done |-> TRUE, h |-> e.h, honestInPool |-> (DOMAIN lp.peers \cap honest) # {}]
+      \* IsCaughtUp was evaluated by the ticker before this event could be logged: an honest
+      \* peer counts as "in the pool" only if it was there before (gp) and still is (lp)
+  IN /\ hand' = [done |-> TRUE, h |-> e.h, honestInPool |-> (DOMAIN gp.peers \cap DOMAIN lp.peers \cap honest) # {}]
      /\ Install(e, {x}, blocks, gst,
                 FailIf(e.panic # PanicSpec(e), D("hand-over panic differs from the spec's prediction"))
-                \cup FailIf(~IsCaughtUp(lp), D("hand-over although the spec's IsCaughtUp is false"))
+                \cup FailIf(~IsCaughtUp(lp) /\ ~IsCaughtUp(gp), D("hand-over although the spec's IsCaughtUp is false"))
                 \cup FailIf(e.h # gst.h, D("hand-over state height differs from the applied height")),
                 FailIf(e.panic, V("CleanHandover", "handover:" \o Concat(e.seen.slots))),
                 \* a pair that is still lying in the pool when the node leaves the sync was never
                 \* examined (IsCaughtUp may hold two blocks below the tip): nobody owes anything for it
                 IF PairRefused(lp, gst) THEN FailPeers(lp) ELSE {})
-     /\ UNCHANGED <<tT, honest, blocks, gst, gstore>>
+     /\ UNCHANGED <<tT, honest, blocks, gst, gstore, wide>>
 
 StepProbe(e) ==
   LET lp == PoolOfLog(e.pool, blocks) IN
   /\ Install(e, {Infer(gp, lp)}, blocks, gst,
              FailIf(e.panic # PanicSpec(e), D("restart panic differs from the spec's prediction")),
              FailIf(e.panic, V("CleanRestart", "restart:" \o Concat(e.seen.slots))), {})
-  /\ UNCHANGED <<tT, honest, blocks, gst, gstore, hand>>
+  /\ UNCHANGED <<tT, honest, blocks, gst, gstore, hand, wide>>
 
 StepEnd(e) ==
   LET lp == PoolOfLog(e.pool, blocks)
@@ -262,7 +275,7 @@ StepEnd(e) ==
                 \cup FailIf(judged /\ e.hasHonest /\ e.handed /\ hand.honestInPool /\ hand.h < tT - 2, V("ReachesTip", "early"))
                 \cup FailIf(\E h \in 1..Len(e.store) : e.store[h].id # CanonId(h) \/ e.store[h].uid # CanonId(h), V("OnlyCanonical", "final")),
                 {})
-     /\ UNCHANGED <<tT, honest, blocks, gst, gstore, hand>>
+     /\ UNCHANGED <<tT, honest, blocks, gst, gstore, hand, wide>>
 
 Step ==
   /\ l <= Len(Trace)
@@ -286,7 +299,7 @@ Finish ==
   /\ l = Len(Trace) + 1
   /\ WriteVerdict("verdict.json", Len(Trace), viol, drift)
   /\ l' = l + 1
-  /\ UNCHANGED <<tT, honest, gp, blocks, gst, gstore, owed, failH, hand, viol, drift>>
+  /\ UNCHANGED <<tT, honest, gp, blocks, gst, gstore, owed, failH, hand, viol, drift, wide>>
 
 Next == Step \/ Finish
 =============================================================================
